@@ -4,6 +4,18 @@ import json, sys
 pid = sys.argv[1]; variant = sys.argv[2] if len(sys.argv) > 2 else "a"
 p = [json.loads(l) for l in open('/verif/properties.jsonl') if json.loads(l)['id'] == pid][0]
 wt = "/tmp/mut-%s%s" % (pid, variant); out = "/tmp/mut-out/%s%s" % (pid, variant)
+import glob, os
+prior = []
+for d in sorted(glob.glob('/verif/seeded/%s*' % pid)) + sorted(glob.glob('/tmp/mut-out/%s?' % pid)):
+    mp = os.path.join(d, 'meta.json')
+    if os.path.exists(mp) and os.path.basename(d) != pid + variant:
+        try:
+            m = json.load(open(mp)); t = " ".join(str(m.get('summary', '')).split())[:700]
+            if t and t not in prior: prior.append(t)
+        except Exception: pass
+PRIOR = ""
+if prior:
+    PRIOR = "\n\nOther researchers already wrote the following change(s) against this property; yours must be DIFFERENT IN KIND — another function or mechanism of the anchored code, another way to manifest (prefer: hidden state or memoisation that only shows on a long-lived object, a fault injected at one particular call, a boundary value, an ordering/interleaving, two cooperating sites):\n" + "\n".join("  - " + t for t in prior)
 print(f"""You are a Go engineer doing mutation-style robustness research on a verification effort. You have your own scratch git worktree of the keep-network/keep-core repository at {wt} (create it first: `git -C /repo worktree add --detach {wt} HEAD`). Work ONLY inside {wt} and {out}; never edit /repo itself, and do not read anything under /verif (what you write must be independent of the existing checks). No network: always `export GOFLAGS=-mod=mod GOPROXY=off GOSUMDB=off GOTOOLCHAIN=local`.
 
 The semantic property of the code base you are attacking:
@@ -13,6 +25,8 @@ The semantic property of the code base you are attacking:
   Quantified over: {p['quantifier']['text']}
   Why the existing tests cannot settle it: {p['why_tests_cant']}
   Code it is anchored in: {', '.join(p['anchors']['files'])}
+
+{PRIOR}
 
 Task: write ONE realistic change to the non-test Go source (the kind of slip a developer could plausibly make during a refactor or an optimisation: an off-by-one, a dropped or weakened check, a swapped index, a missing dedup/lock, a wrong comparison, a stale snapshot, an unhandled edge case) that BREAKS this property while the repository still compiles (`go build ./...`) and the EXISTING test suite of the touched packages still passes unedited (`go test -count=1 <touched packages>`; also run packages that depend heavily on the touched code if they are quick). The change must need something specific to manifest — a particular input shape, an unusual value, a multi-step sequence of operations, a particular interleaving, a fault at a particular point, or two cooperating sites that each look fine alone — not something ordinary use would expose at once. Do not touch test files, build tags, or files named verif_export_*.go (ignore those files entirely), and do not just revert a recent commit.
 
